@@ -25,6 +25,7 @@ type Contract struct {
 	ModNothing bool
 	LoopInv  map[int][]Clause
 	LoopDec  map[int]string
+	LoopComplete map[int][]string
 	Trusted  bool
 	File     string
 	Line     int
@@ -63,6 +64,7 @@ type SpecFn struct {
 }
 
 type Specs struct {
+	loopComplete map[string]map[int][]string
 	returnsSorted map[string][]string
 	contracts map[string]*Contract
 	ifaces    map[string]*Contract // "pkg.Iface.Method"
@@ -128,7 +130,7 @@ func (s *Specs) ifaceContract(it types.Type, method string) *Contract {
 
 // loadSpecs reads the guarded contract files of /repo and the trusted specs of /verif/trusted.
 func loadSpecs(w *World, trustedDir string) *Specs {
-	s := &Specs{returnsSorted: map[string][]string{}, contracts: map[string]*Contract{}, ifaces: map[string]*Contract{}, specFns: map[string]*SpecFn{}, pure: map[string]bool{},
+	s := &Specs{loopComplete: map[string]map[int][]string{}, returnsSorted: map[string][]string{}, contracts: map[string]*Contract{}, ifaces: map[string]*Contract{}, specFns: map[string]*SpecFn{}, pure: map[string]bool{},
 		mutators: map[string]bool{}, noInline: map[string]bool{}, nonnilField: map[string]bool{}, nonnilElem: map[string]bool{},
 		nonnilMapVal: map[string]bool{}, nonnilResult: map[string]bool{}, nonnilIface: map[string]bool{}, unorderedOK: map[string]string{}, structInv: map[string][]Clause{}, pureMethod: map[string]bool{}, siteTags: map[string][]string{}, w: w, pkgByName: map[string]*types.Package{}, typeInv: map[string][]Clause{}}
 	for _, p := range w.prog.AllPackages() {
@@ -284,6 +286,14 @@ func (s *Specs) parseFile(path string, trusted bool) {
 						cur.last = &l[len(l)-1]
 					case "decreases":
 						cur.LoopDec[n] = f[2]
+					case "complete":
+						// loop N complete [tags]: the loop is left only when its range is exhausted (no break, no
+						// return inside): every element is examined
+						_, tags, _ := splitTags(strings.TrimSpace(f[2]) + " true")
+						if cur.LoopComplete == nil {
+							cur.LoopComplete = map[int][]string{}
+						}
+						cur.LoopComplete[n] = tags
 					}
 				}
 			}
@@ -345,6 +355,16 @@ func (s *Specs) parseFile(path string, trusted bool) {
 			f := strings.Fields(rest)
 			if len(f) == 2 {
 				s.siteTags[f[0]] = strings.Split(f[1], ",")
+			}
+		case "loop-complete":
+			// loop-complete <func> <N> <tags>: like "loop N complete [tags]" inside a contract, without creating one
+			f := strings.Fields(rest)
+			if len(f) == 3 {
+				n, _ := strconv.Atoi(f[1])
+				if s.loopComplete[f[0]] == nil {
+					s.loopComplete[f[0]] = map[int][]string{}
+				}
+				s.loopComplete[f[0]][n] = strings.Split(f[2], ",")
 			}
 		case "returns-sorted":
 			// returns-sorted <func> <tags>: the slice the function returns is the slice its last sort call sorted
